@@ -28,6 +28,8 @@ Definition small_clauses (n : Z) (q : Q) (exact : bool) (c : Q) (o : qobs) : Pro
   exists cf, o_conf o = XFin cf /\
      let m := Qsum_range P (o_lo o) (o_hi o - 1) in
      Qabs (cf - m) <= tol_conf /\
+     (* "at least c" on the observed float itself, unless neither neighbour bucket has mass >= 2^-999 *)
+     (c <= cf \/ (inject_Z (2 ^ 999) * P (o_lo o - 1)%Z < 1 /\ inject_Z (2 ^ 999) * P (o_hi o) < 1)) /\
      (exists x, In x (mode_candidates n q exact) /\ (o_lo o <= x < o_hi o)%Z) /\
      ((P (o_lo o - 1)%Z == 0 /\ P (o_hi o) == 0) \/ c <= m \/ in_window exact m c) /\
      ((2 <= o_hi o - o_lo o)%Z ->
@@ -102,12 +104,38 @@ Proof.
   unfold d. rewrite Hd, Z.shiftl_1_l. rewrite <- Z.pow_mul_r by (unfold N; lia). reflexivity.
 Qed.
 
+Lemma negligible_sound : forall k, negligible (e * N) (Pw k) = true -> inject_Z (2 ^ 999) * Pq k < 1.
+Proof.
+  intros k H. pose proof HD as HD'. pose proof (Pw_scaled k) as Ew.
+  assert (Hden : Qden (Pw k) = 1%positive) by apply scaled_pmf_den.
+  assert (Ez : Pw k == inject_Z (Qnum (Pw k))).
+  { destruct (Pw k) as [a b]. simpl in Hden. subst b. reflexivity. }
+  assert (H0 : 0 <= Pq k) by (apply binom_pmf_nonneg; exact Hq).
+  apply (Qmult_lt_l _ _ D HD'). rewrite Qmult_1_r.
+  setoid_replace (D * (inject_Z (2 ^ 999) * Pq k)) with (inject_Z (2 ^ 999) * Pw k) by (rewrite Ew; ring).
+  unfold negligible in H. apply orb_prop in H as [H|H].
+  - apply Qle_bool_iff in H. assert (E0 : Pw k == 0).
+    { assert (0 <= Pw k) by (rewrite Ew; apply Qmult_le_0_compat; lra). lra. }
+    rewrite E0. lra.
+  - apply Z.leb_le in H. rewrite Ez. unfold D. rewrite D_pow2. rewrite <- inject_Z_mult. rewrite <- Zlt_Qlt.
+    set (z := Qnum (Pw k)) in *.
+    destruct (Z_le_gt_dec z 0) as [Hz|Hz].
+    + assert (0 < 2 ^ (e * N))%Z by (apply Z.pow_pos_nonneg; unfold N; lia).
+      assert (0 < 2 ^ 999)%Z by (apply Z.pow_pos_nonneg; lia). nia.
+    + destruct (Z.log2_spec z ltac:(lia)) as [_ Hs].
+      assert (Hl : (0 <= Z.log2 z)%Z) by apply Z.log2_nonneg.
+      assert (Hp : (2 ^ 999 * 2 ^ Z.succ (Z.log2 z) <= 2 ^ (e * N))%Z).
+      { rewrite <- Z.pow_add_r by lia. apply Z.pow_le_mono_r; lia. }
+      assert (0 < 2 ^ 999)%Z by (apply Z.pow_pos_nonneg; lia). nia.
+Qed.
+
 Lemma small_item_sound : forall c o g',
   qci_graph Pw eps N (mode_candidates N q exact) = Some g' ->
   existsb (match_small (e * N) o) (small_outs Pw N g' e exact c) = true ->
+  conf_ge_c Pw (e * N) c o = true ->
   small_clauses N q exact c o.
 Proof.
-  intros c o g' Hg' Hex. apply existsb_exists in Hex as (r' & Hr' & Hm).
+  intros c o g' Hg' Hex Hge. apply existsb_exists in Hex as (r' & Hr' & Hm).
   pose proof HD as HD'. pose proof Heps as Heps'.
   (* the member on the integer masses: integrality *)
   assert (HP0w : forall k, 0 <= Pw k).
@@ -137,7 +165,11 @@ Proof.
   rewrite <- Hl, <- Hh, <- Ha, Elo, Ehi, Eamb.
   exists cf. split; [reflexivity|]. cbv zeta. fold Pq.
   assert (A1 : 1 * r_conf r == Qsum_range Pq (r_lo r) (r_hi r - 1)) by (rewrite <- A; ring).
-  split; [|split; [exact X|split; [|split]]].
+  split; [|split; [|split; [exact X|split; [|split]]]].
+  2: { (* at least c, on the float *)
+    unfold conf_ge_c in Hge. rewrite Eo in Hge. rewrite <- Hl, <- Hh in Hge. rewrite Elo, Ehi in Hge.
+    destruct (Qle_bool c cf) eqn:Ec; [left; apply Qle_bool_iff; exact Ec|]. right.
+    apply andb_prop in Hge as [G1 G2]. split; apply negligible_sound; assumption. }
   - (* Confidence *)
     apply (dwithin_exact tol_conf (Qnum (r_conf r')) 1 (e * N) cf) in Hc; [|lia | unfold N; lia].
     assert (E : (Qnum (r_conf r') # Z.to_pos (1 * 2 ^ (e * N))) == r_conf r).
@@ -184,7 +216,7 @@ Lemma check_small_item_inv : forall P n x qb g e exact c o code t dg,
   check_small_item P n x qb g e exact c o = (code, t, dg) -> code_ok code ->
   o_n o = n /\ o_qbits o = qb /\ orders_ok n o = true /\
   (if Qle_bool 1 c then is_full n o = true
-   else existsb (match_small (e * n) o) (small_outs P n g e exact c) = true).
+   else existsb (match_small (e * n) o) (small_outs P n g e exact c) = true /\ conf_ge_c P (e * n) c o = true).
 Proof.
   intros P n x qb g e exact c o code t dg H Hc. unfold check_small_item in H. unfold code_ok in Hc.
   destruct ((o_n o =? n)%Z && (o_qbits o =? qb)%Z) eqn:E1; cbn [negb] in H;
@@ -198,7 +230,9 @@ Proof.
     match type of H with (if negb ?b then _ else _) = _ => destruct b end; cbn [negb] in H;
       [|injection H as <- _ _; unfold V_MALFORMED in Hc; lia].
     match type of H with (if ?b then _ else _) = _ => destruct b eqn:E5 end;
-      [reflexivity | injection H as <- _ _; unfold V_MISMATCH in Hc; lia].
+      [|injection H as <- _ _; unfold V_MISMATCH in Hc; lia].
+    split; [reflexivity|].
+    destruct (conf_ge_c P (e * n) c o); [reflexivity | injection H as <- _ _; unfold V_MISMATCH in Hc; lia].
 Qed.
 
 Lemma run_small_inv : forall P n x qb g e exact items idx tag border,
@@ -326,7 +360,7 @@ Proof.
     assert (En : Z.of_nat (Z.to_nat n) = n) by (apply Z2Nat.id; lia).
     pose proof (small_item_sound (Z.to_nat n) q (conj G3 G4) (Z.log2 (Zpos (Qden q))) (Z.log2_nonneg _) Gd
                   (exact_regime n q) c o g) as S.
-    rewrite En in S. apply S; [exact Hg | exact E4].
+    rewrite En in S. destruct E4 as [E4 E4']. apply S; [exact Hg | exact E4 | exact E4'].
 Qed.
 
 (* ====================================================================== *)
